@@ -21,7 +21,8 @@ import vlib
 from vlib import hexs
 import gens
 
-JSON_POOL = 23              # len(JSON_POOL) in harness/src/valueterm.rs
+JSON_POOL = 23              # ids 0..22 of JSON_POOL in harness/src/valueterm.rs
+JSON_EXTRA = [31, 32, 33, 34, 35]   # documents differing only in the sign of a float zero (0.0 / -0.0)
 JSON_REORDERED = [15, 16, 17, 18]     # pool entries whose second source text inserts the keys in another order
 
 F32 = ["00000000", "80000000", "3f800000", "bf800000", "00000001", "80000001", "007fffff", "00800000", "7f7fffff",
@@ -63,7 +64,7 @@ STATE = {}
 def json_tokens(ctx):
     """first pass: serde_json::to_string of every pool entry, from the implementation"""
     toks = []
-    for i in range(JSON_POOL):
+    for i in list(range(JSON_POOL)) + JSON_EXTRA:
         toks.append("%d" % i)
         if i in JSON_REORDERED:
             toks.append("%d~1" % i)
